@@ -220,6 +220,15 @@ def gen_plan(rng, family):
         if rng.random() < 0.4:
             main.append(["submit", "value"])
         plan["final"] = "await+submit+shutdown"
+    elif family == "busyfatal":                 # C02: part of the pool idles out while a task still runs; a submit re-starts a worker, which then dies
+        plan["timeout"] = 0.05
+        plan["workers"] = rng.choice([2, 2, 3])
+        main.append(["submit", "long"])         # keeps one worker busy: its result can reach the manager together with the submit's wake-up
+        if rng.random() < 0.5:
+            main.append(["submit", "long"])
+        main.append(["pause"])                  # the idle workers time out
+        main.append(["submit", "die"])          # re-starts a worker (wake-up) -- which dies running this task
+        plan["final"] = "await+submit+shutdown"
     elif family == "idleshrink":                # C10: some workers idle-time-out BEFORE a shrinking resize; none may leave after it
         plan["reusable"] = True
         plan["timeout"] = 10
